@@ -245,6 +245,14 @@ def check_C07(ctx):
     ctx.distinct_nontrivial += st["nontrivial"]
     ctx.samples += st["samples"]
     mism = run_tv(ctx, "TV_Budget", recs, timeout=3000)
+    # action-level binding: the enforcer's step log (event + state before it) replayed through MC_Budget!Observe, per policy
+    for pol, pd in (("all", False), ("perdoc", True)):
+        trecs = ctx.path(f"budget_traces_{pol}.ndjson")
+        st2 = run_vh(ctx, ["c07t", "--cases", cases, "--out", trecs, "--policy", pol, "--every", 4 if q else 1, "--seed", ctx.seed])
+        ctx.notes[f"enforcer_traces_{pol}"] = dict(records=st2["records"], steps=st2["steps"])
+        ctx.evaluations += st2["records"]
+        mism += run_tv(ctx, "TR_Budget", trecs, label=f"TR_Budget_{pol}", timeout=3000, invariants=["Count"], spec="TrSpec",
+                       constants=dict(MaxEv=0, MaxDocs=0, Names=[1], PerDoc=pd, AliasToggles=False, ResetAllPerDoc=True, SkipObserves=True))
     classify_mismatches(ctx, mism, recs, c07_matchers(),
                         "budget acceptance / breach kind / usage report differs from Budget!Usage over the observed stream")
     return finish(ctx, "model_checking",
@@ -579,7 +587,7 @@ def check_C14(ctx):
            ["InvSharing", "InvWeakFirstIsError", "EmitCase"], workers=8, timeout=3000, cases_out=cases, label="MC_AnchorStore_sharing")
     ctx.exhaustive = True
     recs = ctx.path("recs.ndjson")
-    st = run_vh(ctx, ["c14", "--cases", cases, "--out", recs, "--random", 500 if q else 20000, "--seed", ctx.seed, "--chain", 3 if q else 4])
+    st = run_vh(ctx, ["c14", "--cases", cases, "--out", recs, "--random", 500 if q else 20000, "--seed", ctx.seed, "--chain", 3 if q else 4, "--dags", 400 if q else 20000])
     ctx.evaluations += st["records"]
     ctx.distinct_nontrivial += st["nontrivial"]
     ctx.samples += st["samples"]
@@ -600,7 +608,7 @@ def check_C15(ctx):
     run_mc(ctx, "MC_AnchorStore", dict(MaxAllocs=1, MaxFields=0, ScopeSaves=True, MaxCalls=3 if q else 4), ["InvCleanAtBoundary"],
            properties=["NestedTransparent"], workers=4, timeout=3000, label="MC_AnchorStore_histories")
     cases = ctx.path("cases.ndjson")
-    run_mc(ctx, "MC_Histories", dict(MaxLen=3 if q else 4, NCalls=11), ["EmitCase"], workers=4, timeout=3000, cases_out=cases, label="MC_Histories")
+    run_mc(ctx, "MC_Histories", dict(MaxLen=3 if q else 4, NCalls=14), ["EmitCase"], workers=4, timeout=3000, cases_out=cases, label="MC_Histories")
     ctx.exhaustive = True
     recs = ctx.path("recs.ndjson")
     st = run_vh(ctx, ["c15", "--cases", cases, "--out", recs, "--random", 300 if q else 20000, "--seed", ctx.seed])
@@ -611,8 +619,8 @@ def check_C15(ctx):
     classify_mismatches(ctx, [(m[0], {"verdict": m[1]["verdict"], "rec": m[1]["rec"]}, m[2], m[3]) for m in mism], None, {},
                         "a call's result differs from the same call on a fresh thread, or thread-local state leaked / a nested call was not transparent")
     return finish(ctx, "model_checking",
-                  "histories: every sequence of <= 3/4 calls over 11 call kinds (ok with sharing, failure inside an anchored node, missing "
-                  "field, budget breach, panicking visitor, parse nested in a user Deserialize impl at top level and inside an anchored "
+                  "histories: every sequence of <= 3/4 calls over 14 call kinds (ok with sharing, failure inside an anchored node, missing "
+                  "field, budget breach, panicking visitor, parse nested in a user Deserialize impl at top level (outer anchors held by Rc, Arc, RcRecursive, ArcRecursive wrappers) and inside an anchored "
                   "node, abandoned iterator, serialization with shared pointers, unknown alias, weak reference) enumerated by TLC and run "
                   "on one thread, plus random histories of 4-15 calls; each call's fingerprint is compared with the same call on a fresh "
                   "thread, the thread-local anchor state and fallback location are snapshotted (hooks) after every call and around every "
